@@ -366,13 +366,15 @@ func (h *NativeHashSet[V]) EqualInterface(thread *Thread, other HashSet) (bool, 
 }
 
 func (h *NativeHashSet[V]) Equal(thread *Thread, other value.Value) (result bool, err value.Value) {
+	otherVal := other
 	switch other := other.SafeAsReference().(type) {
 	case *NativeHashSet[V]:
 		return h.EqualNative(other), value.Undefined
 	case HashSet:
 		return h.EqualInterface(thread, other)
 	default:
-		return false, value.NewCoerceError(value.HashSetClass, other.Class()).ToValue()
+		// `other` is a nil reference when the value is not a reference (Int, nil, ...)
+		return false, value.NewCoerceError(value.HashSetClass, otherVal.Class()).ToValue()
 	}
 }
 
